@@ -89,6 +89,8 @@ type Prog struct {
 	// Pre: a body API the handler calls first (with other data) and then overrides with Body - a handler that changes its
 	// mind, e.g. an error after the stream was set up. One of BSetBody, BRaw, BStreamLen, BStreamChunked; 0 = none.
 	Pre int `json:"pre,omitempty"`
+	// BigHead: the handler sets a 5000-byte header field first, so that the response head does not fit a 4 KiB buffer node
+	BigHead bool `json:"big_head,omitempty"`
 }
 
 type Req struct {
@@ -96,6 +98,10 @@ type Req struct {
 	V10    bool   `json:"v10,omitempty"`
 	KA10   bool   `json:"ka10,omitempty"`
 	Close  bool   `json:"close,omitempty"`
+	// Expect: the (POST) request carries Expect: 100-continue
+	Expect bool `json:"expect,omitempty"`
+	// NoRoute: the request path matches no route: the program runs as the engine's NoRoute handler
+	NoRoute bool `json:"no_route,omitempty"`
 }
 
 type Case struct {
@@ -178,6 +184,9 @@ func (p Prog) run(ctx *app.RequestContext, salt byte) {
 		ctx.SetStatusCode(p.Status)
 	}
 	ctx.Response.Header.Set("X-H", "v")
+	if p.BigHead {
+		ctx.Response.Header.Set("X-Big", strings.Repeat("b", 5000))
+	}
 	if p.Close {
 		ctx.SetConnectionClose()
 	}
@@ -267,6 +276,10 @@ func (p Prog) run(ctx *app.RequestContext, salt byte) {
 				ctx.Write(reuse) //nolint:errcheck
 			case 'f':
 				ctx.Flush() //nolint:errcheck
+			case 'H':
+				// a header is set after the head has been handed to the connection (too late to be sent, but it must not
+				// disturb what is being sent either)
+				ctx.Response.Header.Set("X-Late", "late")
 			case 'a':
 				ctx.AbortWithMsg("backend failed", 500)
 			}
@@ -289,7 +302,9 @@ func newWorker() *worker {
 		}
 	}
 	// a real route (not NoRoute: the 404 path adds a default body of its own)
-	w.s.E.Any("/*any", w.s.Echo)
+	w.s.E.Any("/r/*any", w.s.Echo)
+	// and the same programs as the NoRoute handler (only programs that send a body: for an empty one the engine adds its text)
+	w.s.E.NoRoute(w.s.Echo)
 	w.s.Start()
 	return w
 }
@@ -305,7 +320,14 @@ func (w *worker) exec(c *mc.Ctx, cs Case) {
 		if r.V10 {
 			ver = "HTTP/1.0"
 		}
-		fmt.Fprintf(&in, "%s /r%d %s\r\nHost: h\r\n", r.Method, i, ver)
+		path := fmt.Sprintf("/r/%d", i)
+		if r.NoRoute {
+			path = fmt.Sprintf("/nr%d", i)
+		}
+		fmt.Fprintf(&in, "%s %s %s\r\nHost: h\r\n", r.Method, path, ver)
+		if r.Expect {
+			in.WriteString("Expect: 100-continue\r\n")
+		}
 		if r.V10 && r.KA10 {
 			in.WriteString("Connection: keep-alive\r\n")
 		}
@@ -346,8 +368,14 @@ func (w *worker) exec(c *mc.Ctx, cs Case) {
 		return
 	}
 	fin := httpref.Finals(ms)
-	if len(fin) != len(ms) {
-		fail("interim", "unexpected interim response")
+	nExpect := 0
+	for _, r := range cs.Reqs {
+		if r.Expect && !r.V10 {
+			nExpect++ // an HTTP/1.1 client that announced Expect: 100-continue may be sent the interim response; an HTTP/1.0 client never
+		}
+	}
+	if len(ms)-len(fin) > nExpect {
+		fail("interim", fmt.Sprintf("%d interim response(s) on the wire, %d request(s) of an HTTP/1.1 client asked for one", len(ms)-len(fin), nExpect))
 		return
 	}
 	if len(fin) != served {
@@ -567,6 +595,9 @@ func reducedProgs() []Prog {
 		{Status: 204, Body: BStreamLen, Size: 5, StatusLast: true},
 		{Status: 200, Body: BHijack, Ops: "rr"},
 		{Status: 200, Body: BRaw, Size: 23},
+		{Status: 404, Body: BHijack, Ops: "1f1"},
+		{Status: 200, Body: BHijack, Ops: "1H1"},
+		{Status: 200, Body: BHijack, Ops: "kHf1"},
 		{Status: 200, Body: BSetBody, Size: 5, Pre: BStreamChunked},
 		{Status: 200, Body: BStreamLen, Size: 3, Pre: BStreamChunked},
 	}
@@ -602,6 +633,35 @@ func run(c *mc.Ctx) {
 			atomic.AddInt64(ex, 1)
 			atomic.AddInt64(tr, 1)
 			if p.Body != BNone {
+				atomic.AddInt64(nt, 1)
+			}
+		}
+	})
+	// further request kinds on a reduced program list: Expect: 100-continue from HTTP/1.1 and HTTP/1.0 clients, and the
+	// programs run as the NoRoute handler; heads above 4 KiB through every body API
+	extraReqs := []Req{{Method: "POST", Expect: true}, {Method: "POST", V10: true, KA10: true, Expect: true}, {Method: "POST", V10: true, Expect: true},
+		{Method: "GET", NoRoute: true}, {Method: "HEAD", NoRoute: true}}
+	rp0 := reducedProgs()
+	c.ParallelFor(len(rp0), func(i int) {
+		w := getW()
+		defer func() { pool <- w }()
+		for _, big := range []bool{false, true} {
+			p := rp0[i]
+			p.BigHead = big
+			reqs := extraReqs
+			if big {
+				reqs = append([]Req{{Method: "GET"}, {Method: "HEAD"}}, extraReqs...)
+			}
+			for _, r := range reqs {
+				if p.Body == BHijack && r.Method == "HEAD" {
+					continue
+				}
+				if r.NoRoute && (p.Body == BNone || p.Body == BNotFound || p.Size == 0 && p.Body != BHijack || p.Body == BHijack && !strings.ContainsAny(p.Ops, "1kr") || bodiless(p.Status)) {
+					continue // no body sent: the engine supplies its default text
+				}
+				w.exec(c, Case{Reqs: []Req{r, {Method: "GET"}}, Progs: []Prog{p, {Status: 200, Body: BSetBody, Size: 3}}})
+				atomic.AddInt64(ex, 1)
+				atomic.AddInt64(tr, 2)
 				atomic.AddInt64(nt, 1)
 			}
 		}
